@@ -8,6 +8,8 @@ r32, r64 = SC['r32'], SC['r64']
 
 E0 = Enum('E0', [('E0_A', 0), ('E0_B', 5), ('E0_C', 0xFFFFFFFF)])
 E1 = Enum('E1', [('E1_A', 0), ('E1_B', 2)])                    # no enumerator equal to 1
+E5 = Enum('E5', [('E5_A', 5), ('E5_B', 0)])                    # default (first) enumerator is not zero
+SE5 = Struct('SE5', [Field('e', E5), Field('x', u8)])          # element whose default value does not encode to zeros
 S1 = Struct('S1', [Field('a', u8)])
 S2 = Struct('S2', [Field('a', u8), Field('b', u16)])
 S8 = Struct('S8', [Field('a', u8), Field('b', u64)])
@@ -22,6 +24,8 @@ TS2 = Typedef('TS2', S2)
 SO = Struct('SO', [Field('o', u16, 'optional')])               # struct containing an optional (union arm / element)
 UO = Union('UO', [(1, 'p', SO), (2, 'q', u8)])
 DO = Struct('DO', [Field('v', u8, 'dynamic'), Field('o', u8, 'optional')])   # dynamic struct ending in an optional
+S12 = Struct('S12', [Field('a', u32), Field('b', u32), Field('c', u32)])
+U12 = Union('U12', [(1, 'x', u64), (2, 'y', S12)])             # 8-aligned union whose largest arm is 4 mod 8 bytes long
 
 
 def _k():
@@ -31,11 +35,11 @@ def _k():
         K['plain_' + n] = lambda nm, t=t: [Field(nm, t)]
     for n, t in [('u8', u8), ('u16', u16), ('u32', u32), ('u64', u64), ('i8', i8), ('i16', i16), ('i32', i32), ('i64', i64),
                  ('r32', r32), ('r64', r64), ('E0', E0), ('E1', E1), ('S1', S1), ('S2', S2), ('S8', S8), ('U4', U4), ('U8', U8),
-                 ('D', D), ('D8', D8), ('TTU16', TTU16), ('TS2', TS2), ('UO', UO), ('DO', DO)]:
+                 ('D', D), ('D8', D8), ('TTU16', TTU16), ('TS2', TS2), ('UO', UO), ('DO', DO), ('U12', U12)]:
         plain(n, t)
     for n, t in [('u8', u8), ('u16', u16), ('u32', u32), ('u64', u64), ('E1', E1), ('S2', S2), ('S8', S8), ('U4', U4), ('r32', r32)]:
         K['opt_' + n] = lambda nm, t=t: [Field(nm, t, 'optional')]
-    for n, t in [('u8', u8), ('u16', u16), ('u64', u64), ('E0', E0), ('S2', S2), ('U8', U8)]:
+    for n, t in [('u8', u8), ('u16', u16), ('u64', u64), ('E0', E0), ('S2', S2), ('U8', U8), ('SE5', SE5)]:
         K['fix_' + n] = lambda nm, t=t: [Field(nm, t, ('fixed', 2))]
         K['dyn_' + n] = lambda nm, t=t: [Field(nm, t, 'dynamic')]
         K['lim_' + n] = lambda nm, t=t: [Field(nm, t, ('limited', 2))]
@@ -91,6 +95,10 @@ def curated():
     C.append(Struct('C_i_mix', [Field('a', i8), Field('b', i16), Field('c', i32), Field('d', i64)]))
     C.append(Struct('C_greedy_S2', [Field('n', u16), Field('g', S2, 'greedy')]))
     C.append(Struct('C_last_G', [Field('a', u32), Field('g', G)]))
+    C.append(Struct('C_blk_narrow_opt', [Field('n', u16), Field('a', u8, ('ext', 'n')), Field('x', u8), Field('y', u16, 'optional'), Field('z', u8)]))
+    C.append(Struct('C_blk_opt_first', [Field('n', u32), Field('a', u8, ('ext', 'n')), Field('x', u8, 'optional'), Field('y', u64)]))
+    C.append(Struct('C_union12_then', [Field('u', U12), Field('t', u64)]))
+    C.append(Struct('C_last_G8', [Field('a', u64), Field('b', u8), Field('g', Struct('G16', [Field('h', u16), Field('g', u8, 'greedy')]))]))
     return C
 
 
